@@ -321,6 +321,22 @@ func (b *builder) segment(n int) {
 			b.pushOperand("lit")
 		case k == 2 && b.genesis && b.nest > 0 && rapid.IntRange(0, 3).Draw(t, "ret_in") == 0:
 			b.emit(0x6a) // OP_RETURN inside a conditional
+		case k == 4 && b.nest > 0 && rapid.IntRange(0, 1).Draw(t, "odd_in") == 0:
+			// opcodes whose legality depends on whether (and in which era) they execute:
+			// disabled 2MUL/2DIV, reserved and undefined opcodes, an oversize push
+			switch rapid.IntRange(0, 5).Draw(t, "odd_k") {
+			case 0, 1:
+				b.emit(byte(0x8d + rapid.IntRange(0, 1).Draw(t, "2div")))
+			case 2:
+				b.emit(rapid.SampledFrom([]byte{0x50, 0x62, 0x89, 0x8a}).Draw(t, "reserved"))
+			case 3:
+				b.emit(byte(rapid.IntRange(0xba, 0xff).Draw(t, "undefined")))
+			case 4:
+				b.emit(Push(make([]byte, 521), 0)...)
+				b.depth++
+			default:
+				b.emit(0x8d)
+			}
 		case k == 3 && b.nest > 0 && rapid.IntRange(0, 2).Draw(t, "verif_in") == 0:
 			// reserved branching opcodes: fine post-genesis as long as the branch is dead
 			b.emit(byte(0x65 + rapid.IntRange(0, 1).Draw(t, "vernotif")))
